@@ -469,13 +469,14 @@ Theorem color3uint8_unknown_property_refuted :
             dec_col WColor3uint8 (to_default_rbx_type WColor3uint8) ctx0 1 b = Err E_TYPE_MISMATCH.
 Proof. eexists. split; vm_compute; reflexivity. Qed.
 
+Definition ectx_id : enc_ctx := mkEC (fun r => Some (Z.of_N r)) (fun _ => None) (fun _ => 0).
+Definition dctx_id : dec_ctx := mkDC (fun z => Z.to_N z) [] None.
+
 (* two Content::Object values in one column come back in the opposite order (the reader pops its
    deque of object referents from the back) *)
 Theorem content_object_order_refuted :
-  let ec := mkEC (fun r => Some (Z.of_N r)) (fun _ => None) (fun _ => 0) in
-  let dc := mkDC (fun z => Z.to_N z) [] None in
-  exists b, enc_col WContent ec [VContent (CObject 7); VContent (CObject 9)] = Ok b /\
-            dec_col WContent VT_Content dc 2 b = Ok ([VContent (CObject 9); VContent (CObject 7)], []).
+  exists b, enc_col WContent ectx_id [VContent (CObject 7); VContent (CObject 9)] = Ok b /\
+            dec_col WContent VT_Content dctx_id 2 b = Ok ([VContent (CObject 9); VContent (CObject 7)], []).
 Proof. eexists. split; vm_compute; reflexivity. Qed.
 
 (* Font: cached_face_id = Some "" is written as the empty string and read back as None *)
